@@ -2799,12 +2799,13 @@ func (le *leaseEntry) renewable() (bool, error) {
 	case le.ExpireTime.IsZero():
 		return false, errors.New("lease is not renewable")
 
-	case le.ClientTokenType == logical.TokenTypeBatch:
-		return false, nil
-
-	// Determine if the lease is expired
+	// Determine if the lease is expired; this applies to leases issued
+	// under batch tokens as well
 	case le.ExpireTime.Before(time.Now()):
 		return false, errors.New("lease expired")
+
+	case le.ClientTokenType == logical.TokenTypeBatch:
+		return false, nil
 
 	// Determine if the lease is renewable
 	case le.Secret != nil && !le.Secret.Renewable:
